@@ -276,6 +276,39 @@ Section RDPProofs.
       destruct (mids ++ b :: rest); exact X.
   Qed.
 
+  (* ... and nothing else: an accepted pair is related by RdpRelV *)
+  Lemma rr_scan_sound : forall inp a' out x,
+    veqb x a' = true -> out <> [] -> rr_scan t a' out inp = true -> RdpRelV t (x :: inp) (a' :: out).
+  Proof.
+    induction inp as [|x0 r IH]; intros a' out x VX NE H.
+    - destruct out; simpl in H; discriminate.
+    - destruct out as [|b' out']; [congruence|].
+      change (rr_scan t a' (b' :: out') (x0 :: r))
+        with ((veqb x0 b' && match out' with [] => match r with [] => true | _ => false end
+                                          | _ => rr_scan t b' out' r end)
+              || (within_b t a' b' x0 && rr_scan t a' (b' :: out') r)) in H.
+      apply orb_prop in H as [H|H]; apply andb_prop in H as [H1 H2].
+      + destruct out' as [|c out''].
+        * destruct r; [|discriminate].
+          apply (RV_step t x a' [] x0 b' [] []); auto. now constructor.
+        * apply (RV_step t x a' [] x0 b' r (c :: out'')); auto.
+          apply IH; auto. discriminate.
+      + specialize (IH a' (b' :: out') x VX NE H2).
+        inversion IH as [|? ? mids b ? rest ? V0 F0 R0]; subst.
+        apply (RV_step t x a' (x0 :: mids) b b' rest out'); auto.
+  Qed.
+
+  Theorem rdp_rel_b_sound i o : rdp_rel_b t i o = true -> RdpRelV t i o.
+  Proof.
+    unfold rdp_rel_b. destruct i as [|a r]; [discriminate|].
+    destruct o as [|a' o']; [destruct r; discriminate|].
+    destruct o' as [|b' o''].
+    - destruct r; [|discriminate]. intros H. now constructor.
+    - intros H.
+      assert (veqb a a' && rr_scan t a' (b' :: o'') r = true) as H' by (destruct r; exact H).
+      apply andb_prop in H' as [H1 H2]. apply rr_scan_sound; auto. discriminate.
+  Qed.
+
   Corollary rdp_rel_b_model (vs : list qv) : vs <> [] -> rdp_rel_b t vs (rdp t vs) = true.
   Proof. intros NE. apply rdp_rel_b_complete. now apply rdp_rel. Qed.
 End RDPProofs.
